@@ -32,7 +32,10 @@ def gen_case(rng, maxlen):
             src = rng.choice(sorted(species)); re = []; pr = [rng.choice(SP)]
             pd = {"k": rng.choice([0.2, "kA"]), "K": 2.0, "n": 2, "s1": src} if kind == "hillpositive" else {"rate": "kg*%s/(1+%s)" % (src, src)}
         t = [re, pr, kind, pd]
-        if rng.random() < 0.25: t += ["fixed", [], [rng.choice(SP)], {"delay": rng.choice([0.0, 0.5])}]
+        if rng.random() < 0.3:
+            # fixed and sampled delays (the samplers draw from the shared generator: seeding must reset everything they keep -- S2_C08)
+            t += rng.choice([["fixed", [], [rng.choice(SP)], {"delay": rng.choice([0.0, 0.5])}], ["gaussian", [], [rng.choice(SP)], {"mean": 0.5, "std": 0.1}],
+                             ["gamma", [], [rng.choice(SP)], {"k": 2.0, "theta": 0.2}]])
         for s_ in re + pr + (t[6] if len(t) == 8 else []): species.add(s_)
         return t
     n = rng.randint(6, maxlen)
@@ -80,7 +83,8 @@ def _observe(M, seed):
     for mode, kw in (("ssa", {}), ("safe", {"safe": True}), ("delay", {"delay": True}), ("volume", {"volume": 2.0})):
         py_seed_random(seed); out[mode] = cols(py_simulate_model(T, Model=M, stochastic=True, return_dataframe=False, **kw))
     py_seed_random(seed); again = cols(py_simulate_model(T, Model=M, stochastic=True, return_dataframe=False))
-    out["seed_twice_same"] = (again == out["ssa"])
+    py_seed_random(seed); again_d = cols(py_simulate_model(T, Model=M, stochastic=True, return_dataframe=False, delay=True))
+    out["seed_twice_same"] = (again == out["ssa"]) and (again_d == out["delay"])
     S = np.asarray(M.py_get_update_array()); Sd = np.asarray(M.py_get_delay_update_array())
     out["S"] = {s: [int(v) for v in S[s2i[s]]] for s in names}; out["Sd"] = {s: [int(v) for v in Sd[s2i[s]]] for s in names}
     out["order"] = sorted(s2i, key=lambda s: s2i[s])
